@@ -1,4 +1,5 @@
 import EpdVerif.AuditCmd
 import EpdVerif.Props.C18
+import EpdVerif.Props.C18Big
 import EpdVerif.Props.Panels
 #audit_namespace EpdVerif.Props.C18
